@@ -97,6 +97,9 @@ class GrounderHelper:
         self._grounded_actions: Dict[
             Tuple[str, Tuple[FNode, ...]], Optional[Action]
         ] = {}
+        # names given to the grounded actions so far: they are not names of the problem,
+        # and two different groundings can produce the same "_"-joined name
+        self._used_names: Set[str] = set()
         env = problem.environment
         if prune_actions:
             self._simplifier = Simplifier(env, problem)
@@ -150,7 +153,7 @@ class GrounderHelper:
                     zip(action.parameters, list(parameters))
                 )
                 new_action = create_action_with_given_subs(
-                    self._problem, action, self._simplifier, subs
+                    self._problem, action, self._simplifier, subs, self._used_names
                 )
             self._grounded_actions[key] = new_action
             return new_action
